@@ -105,7 +105,7 @@ func init() {
 		Level: "fault_enumeration",
 		Rule: "cases = end states of seeded forest scenarios (blocks, undo, verify-remember, prune) for Pollard, full MapPollard (TotalRows in {0,5,63,random}) and partial MapPollard. Per state and instance the fault space is enumerated completely: " +
 			"7 conforming reader chunkings (whole, 1-byte, 7-byte, halves, random 1..40, data-with-EOF, random+data-with-EOF); truncation at EVERY offset 0..len-1 (whole reader, plus 1-byte reader at every 5th offset); " +
-			"writer failure at EVERY offset 0..len-1 with and without a partial write. Oracle: restored instance observationally identical (roots, leaf count, every leaf position, GetHash of every position, full-set and singleton proofs; MapPollard also Nodes/CachedLeaves incl. Remember flags) " +
+			"writer failure at EVERY offset 0..len-1 with and without a partial write (suite 'big': forests of 200-650 leaves, streams of tens of KB; for streams over 8 KB the fault offsets are the first and last 300, every 13th and those around every multiple of 512). Oracle: restored instance observationally identical (roots, leaf count, every leaf position, GetHash of every position, full-set and singleton proofs; MapPollard also Nodes/CachedLeaves incl. Remember flags) " +
 			"and identical under 3 further blocks + undo; byte counts equal bytes consumed/produced; SerializeSize equals bytes written; prefix -> error or identical state; failing sink -> error; no panic. " +
 			"An evaluation = one restore/write attempt judged. Non-trivial = a state with deleted leaves or non-default remember flags; distinct = distinct (alive pattern, instance kind, stream length).",
 		Assumptions: []string{"SHA-512/256 collision freedom", "reference model correct", "byte counts are only judged on success paths",
@@ -113,12 +113,21 @@ func init() {
 		MinDistinct: 20,
 		Plan: func(tier string) []core.Suite {
 			if tier == "thorough" {
-				return []core.Suite{{Name: "states", N: 3000, CaseTimeout: 600}}
+				return []core.Suite{{Name: "states", N: 3000, CaseTimeout: 600}, {Name: "big", N: 120, CaseTimeout: 900}}
 			}
-			return []core.Suite{{Name: "states", N: 240, CaseTimeout: 600}}
+			return []core.Suite{{Name: "states", N: 240, CaseTimeout: 600}, {Name: "big", N: 8, CaseTimeout: 900}}
 		},
 		Run: func(c *core.Ctx) {
 			tag := uint64(c.Seed)<<32 | uint64(c.Index)
+			if c.Suite == "big" {
+				// streams of tens of kilobytes: buffer- and block-size effects
+				cfgs := []InstCfg{{Kind: "pollard"}, {"mapfull", []uint8{0, 63, 9}[c.Index%3]}, {"mappartial", []uint8{63, 0}[c.Index%2]}}
+				p := gen.Profile{MinBlocks: 3, MaxBlocks: 8, MaxLeaves: 200 + 150*(c.Index%4), MaxAdds: 120, RememberMode: 2}
+				s := genForestScenario(c.Rng, tag|1<<57, cfgs, fGenOpts{Profile: p, Rounds: 1, Undo: c.Index%3 == 0, PartialOps: false})
+				s.FromRootsAt = -1
+				c13Check(c, s)
+				return
+			}
 			cfgs := []InstCfg{{Kind: "pollard"}, {"mapfull", []uint8{0, 5, 63}[c.Index%3]}, {"mapfull", uint8(c.Rng.Intn(64))}, {"mappartial", []uint8{63, 0, 2}[c.Index%3]}}
 			p := gen.Tiny
 			p.MaxLeaves = 30
@@ -387,6 +396,19 @@ func c13Instance(c *core.Ctx, w *World, in *Inst, f *rm.Forest) {
 		}
 	}
 	c.Max("max_stream_bytes", len(stream))
+	// fault offsets: every offset for streams up to 8 KB; for longer streams every
+	// offset in the first and last 300 bytes, around every multiple of 512, and every 13th
+	offsets := make([]int, 0, len(stream))
+	for off := 0; off < len(stream); off++ {
+		if len(stream) <= 8192 || off < 300 || off >= len(stream)-300 || off%13 == 0 || off%512 <= 2 || off%512 >= 510 {
+			offsets = append(offsets, off)
+		}
+	}
+	if len(offsets) < len(stream) {
+		c.Count("streams_with_strided_fault_offsets", 1)
+	} else {
+		c.Count("streams_with_every_fault_offset", 1)
+	}
 	// 1. reader chunkings
 	for _, rk := range readerKinds {
 		c.Eval(1)
@@ -412,7 +434,7 @@ func c13Instance(c *core.Ctx, w *World, in *Inst, f *rm.Forest) {
 		c.Count("restores_by_reader:"+rk.name, 1)
 	}
 	// 2. truncation at every offset
-	for cut := 0; cut < len(stream); cut++ {
+	for _, cut := range offsets {
 		for variant := 0; variant < 2; variant++ {
 			if variant == 1 && cut%5 != 0 {
 				continue
@@ -445,7 +467,7 @@ func c13Instance(c *core.Ctx, w *World, in *Inst, f *rm.Forest) {
 		}
 	}
 	// 3. writer failure at every offset
-	for off := 0; off < len(stream); off++ {
+	for _, off := range offsets {
 		for _, partial := range []bool{false, true} {
 			fw := &failWriter{left: off, partial: partial}
 			c.Eval(1)
@@ -466,6 +488,6 @@ func c13Instance(c *core.Ctx, w *World, in *Inst, f *rm.Forest) {
 	}
 	if c.WantSample(in.Cfg.Kind) {
 		c.Sample(in.Cfg.Kind, map[string]any{"instance": in.Name, "alive": aliveStr(w.M.Alive), "stream_bytes": len(stream),
-			"truncation_points": len(stream), "writer_failure_points": 2 * len(stream), "reader_chunkings": len(readerKinds)})
+			"truncation_points": len(offsets), "writer_failure_points": 2 * len(offsets), "reader_chunkings": len(readerKinds)})
 	}
 }
